@@ -62,8 +62,8 @@ CLAIMED = {
             "Trusts the directory model (DESIGN.md A.6) and the independent response parser; configurations the model rejects must panic at start-up and are discarded; no symlinks.",
             "directory reference model vs served bytes under post-start-up file-system mutation faults"),
     "C20": ("DESIGN.md 5.C20",
-            "Claimed with explicit bounds. The date is a function of the clock, which the simulator owns: every request is handled at a tape-chosen simulated wall-clock instant in [0, 253402300799] (hook K1; quick: 480 k instants biased to month/year/century/leap boundaries; thorough: every day number 0..2,932,896 once at a seeded second, every second of day on 12 selected days, plus random instants) and the Date header on the wire must equal an independent civil-from-days IMF-fixdate formatter. Decimal and hexadecimal renderings are observed as Content-Length values and chunk-size lines of responses whose body / SSE message length the tape chooses (all lengths to 20,000, powers of ten and sixteen +-1; thorough up to 10^7 and 16^6).",
-            "NOT covered and not coverable by this technique: decimal/hex renderings of values a response cannot have (>= 2^24 up to 2^64). The reference date formatter is cross-checked against Python's datetime by tools/selftest.py on every run.",
+            "Claimed with explicit bounds. The date is a function of the clock, which the simulator owns: every request is handled at a tape-chosen simulated wall-clock instant in [0, 253402300799] (hook K1; quick: 480 k instants biased to month/year/century/leap boundaries; thorough: every day number 0..2,932,896 once at a seeded second, every second of day on 12 selected days, plus random instants) and the Date header on the wire must equal an independent civil-from-days IMF-fixdate formatter. Decimal and hexadecimal renderings are observed as Content-Length values and chunk-size lines of responses whose body / SSE message length the tape chooses (all lengths to 20,000, powers of ten and sixteen +-1; thorough up to 10^7 and 16^6), plus Content-Length of HEAD responses for eight lengths around 10^9, 2^31, 2^32 and up to 10^10 - 1 (bodies never materialised).",
+            "NOT covered and not coverable by this technique: decimal renderings above 10^10 and hex renderings of values a chunk cannot have (>= 2^24). The reference date formatter is cross-checked against Python's datetime by tools/selftest.py on every run.",
             "clock-jump injection + enumerated/biased instants against a reference formatter; response sizes as the carrier of number renderings"),
 }
 
